@@ -289,6 +289,16 @@ parse_next_record_header:
         if (ssl->rec.len < 2 + TLS_GCM_TAG_LEN)
         {
             /* If it's this short, it cannot be an encrypted. */
+            if (ssl->rec.len != 2)
+            {
+                /* A plaintext alert is exactly level + description.  Only
+                   two bytes are consumed below, while the caller later
+                   skips rec.len bytes: any other length desynchronises
+                   the input buffer accounting. */
+                ssl->err = SSL_ALERT_DECODE_ERROR;
+                psTraceErrr("Plaintext alert of invalid length\n");
+                goto encodeResponse;
+            }
             rc = tls13ParseAndHandleAlert(ssl,
                     &pb,
                     in,
